@@ -133,12 +133,34 @@ def run(chk):
             for objs in JUNK_QUICK + [[5], [None], [{}], [{'type': 5}], [{'type': 'identity'}], [[{}]], [{'type': 'bundle', 'objects': [{}]}], [{'type': 'x', 'spec_version': '9.9'}]]:
                 yield dict(base, objects=objs)
 
+    # properties whose presence other code relies on (co-constraints run after cleaning and read several properties at once): every combination of
+    # absent / valid / junk for the members of such a group, with and without an extensions entry that waives "required" rules
+    def group_inputs():
+        U = G.UUID; EXT = {'extension-definition--' + G.UUID2: {'extension_type': 'property-extension'}}
+        for sv in ('2.1', None):
+            base = {'type': 'marking-definition', 'id': 'marking-definition--' + U, 'created': '2020-01-01T00:00:00.000Z'}
+            if sv: base['spec_version'] = sv
+            for dt in (None, 'tlp', 'statement', 'x-unregistered', 5, ''):
+                for df in (None, {'tlp': 'red'}, {'tlp': 'purple'}, {'statement': 's'}, {}, 'red', 5, [], {'tlp': 5}, {'tlp': None}):
+                    for ext in (None, EXT, {}):
+                        for nm in (None, 'n'):
+                            w = dict(base)
+                            if dt is not None: w['definition_type'] = dt
+                            if df is not None: w['definition'] = df
+                            if ext is not None: w['extensions'] = ext
+                            if nm is not None: w['name'] = nm
+                            yield w
+        for w in ({'type': 'language-content', 'spec_version': '2.1', 'id': 'language-content--' + U, 'created': '2020-01-01T00:00:00.000Z', 'modified': '2020-01-01T00:00:00.000Z', 'object_ref': 'identity--' + U},):
+            for contents in JUNK_QUICK + [{'de': 'text'}, {'de': ['x']}, {'de': {}}, {'de': {'name': 5}}, {'de': None}, {'': {'name': 'n'}}, {'de': {'': 'n'}}]: yield dict(w, contents=contents)
+
     def check_raw(w):
         for fn, nm in ((lambda: stix2.parse(copy.deepcopy(w)), 'parse'), (lambda: stix2.parse(copy.deepcopy(w), allow_custom=True), 'parse(allow_custom)'),
                        (lambda: stix2.parse(copy.deepcopy(w), version='2.1'), 'parse(version=2.1)'), (lambda: stix2.parse(copy.deepcopy(w), version='2.0', allow_custom=True), 'parse(version=2.0, allow_custom)')):
             try: fn()
             except Exception as ex:      # noqa
                 if not family_ok(ex): return (f'escape#{type(ex).__name__}', f'{nm}({json.dumps(w)[:170]}): {type(ex).__name__}: {str(ex)[:100]}', {'input': w})
+    chk.bounded('groups of properties that co-constraints read together: absent / valid / junk in every combination', list(group_inputs()), check_raw, classify=lambda w: json.dumps(w, sort_keys=True, default=str)[40:200],
+                bound='marking-definition: 6 definition_type x 10 definition x 3 extensions x 2 name x 2 spec_version values; language-content: 17 contents values; 4 parse variants')
     chk.bounded('structured raw inputs around type / spec_version / extensions / objects', list(raw_inputs()), check_raw, classify=lambda w: json.dumps(w, sort_keys=True, default=str)[:120],
                 bound='9 type values x 5 spec_version values x (5 extension keys x 21 extension values + 10 extensions values) + 18 objects values; 4 parse variants')
     snapshot = {v: {c: dict(m) for c, m in cats.items()} for v, cats in registry.STIX2_OBJ_MAPS.items()}
